@@ -410,3 +410,4 @@ def cases(tier, seed):
 BOUNDS = dict(dense="Eigh n in {2,3} (all k, LM/SM, Eigh() and Auto()); Eig n = 3 with all 6 output orders of LAPACK", rules="Identity, Diagonal (unsorted, sign-free "
               "entries), Triangular lower and upper, n in {2,3}, all k", krylov="Lanczos / Arnoldi algorithm objects, n = 2, max_iters in {2, 3, 40}", power="rank-one "
               "PSD inputs, two directions, power_iteration / Auto k=1 LM / eigmax", values="spectra, rotation parameters, scales symbolic (definite and indefinite)")
+BOUNDS["added"] = 'self-adjoint operator with a repeated eigenvalue through Eig() / Eigh() / Auto() (non-orthogonal LAPACK basis modelled)'
